@@ -42,6 +42,7 @@ func checkC20(r *Report, p *Program) {
 	webhookURLTable(r, p, "R20.12")
 	stopChannelHandedOut(r, p, "R20.13")
 	stopDoneProtocol(r, p, "R20.15")
+	channelFieldsSetOnlyAtStart(r, p, "R20.18")
 	errorValuesUsed(r, p, "R20.16")
 	hookWiring(r, p, "R20.17")
 	// the reconcilers' error checks mean what they say (a start that is skipped on success, or goes on after a failure)
